@@ -63,7 +63,31 @@ def pivot_local_of(b):
     return None, None
 
 
-def make_partition_preds(pv_local):
+def pivot_aliases(b, pv_local):
+    """the locals the pivot value is moved through (a set-up helper returns it into the routine's own local): whole-local moves only"""
+    al = {pv_local}
+    changed = True
+    while changed:
+        changed = False
+        for blk in b.raw["blocks"]:
+            for s_ in blk["stmts"]:
+                if s_.get("k") == "assign" and not s_["dst"]["p"] and s_["rv"].get("k") == "use" and s_["rv"]["a"]["k"] in ("move", "copy") \
+                        and not s_["rv"]["a"]["pl"]["p"] and s_["rv"]["a"]["pl"]["l"] in al and s_["dst"]["l"] not in al:
+                    al.add(s_["dst"]["l"])
+                    changed = True
+    return al
+
+
+def make_partition_preds(pv_local, aliases=None):
+    pvs = set(aliases or ()) | {pv_local}
+
+    class _PV(object):          # compares equal to every alias of the pivot local
+        def __eq__(self, other):
+            return other in pvs
+        def __hash__(self):
+            return 0
+    pv_local = _PV()
+
     def on_call(t, bb, sa, st):
         if callee_name(t) == "clone" and not t["dst"]["p"] and t["dst"]["l"] == pv_local:
             l = arg_local(t, 0)
@@ -117,7 +141,7 @@ def rule_r22_partition(ctx, prog, rule="R22", body=None):
         return
     za = ZoneAnalysis(b, lambda st, z: st.add("_%d" % pidx, "N", -1))
     za.run()
-    pred, on_call = make_partition_preds(pv_local)
+    pred, on_call = make_partition_preds(pv_local, pivot_aliases(b, pv_local))
     sa = SegmentAnalysis(b, za, pred, on_call=on_call)
     cands, cursors = cursor_candidates(sa, za, ("LT", "GE"), lows=(0, 1), point_preds=("EQPV",))
     C = sa.houdini({h: set(cands) for h in sa.heads})
